@@ -1,17 +1,23 @@
 #!/bin/bash
-# tools/finalseeds.sh [ids...] : final pass — run every seeded change (rounds 1 and 2) against the final checks
-# (its own property's check plus the cross-property checks listed below), record the result in seeded/<id>/meta.json
+# tools/finalseeds.sh [-P n] [ids...] : final pass — run every seeded change (rounds 1-3) against the final checks
+# (its own property's check plus the cross-property checks listed in CROSS), record the result in seeded/<id>/meta.json
 cd /verif
-declare -A CROSS=( [C07-3]="C07,C09" [C07-r2-3]="C07,C08" [C06-r2-1]="C06,C13" [C06-r2-3]="C06,C13" )
+P=5; if [ "$1" = "-P" ]; then P=$2; shift 2; fi
 ids="$@"
 if [ -z "$ids" ]; then
-  ids=$(for d in /tmp/seed/out/C*/[0-9]*/ /tmp/seed/out2/C*/[0-9]*/; do p=$(basename $(dirname $d)); k=$(basename $d); case $d in */out2/*) echo $p-r2-$k;; *) echo $p-$k;; esac; done)
+  ids=$(for d in /tmp/seed/out/C*/[0-9]*/ /tmp/seed/out2/C*/[0-9]*/ /tmp/seed/out3/C*/[0-9]*/; do p=$(basename $(dirname $d)); k=$(basename $d); case $d in */out3/*) echo $p-r3-$k;; */out2/*) echo $p-r2-$k;; *) echo $p-$k;; esac; done)
 fi
-for id in $ids; do
-  p=${id%%-*}; k=${id##*-}
+one() {
+  id=$1; p=${id%%-*}; k=${id##*-}
   case $id in *-r3-*) src=/tmp/seed/out3/$p/$k;; *-r2-*) src=/tmp/seed/out2/$p/$k;; *) src=/tmp/seed/out/$p/$k;; esac
-  [ -f $src/patch.diff ] || { echo "$id: no source"; continue; }
-  checks=${CROSS[$id]:-$p}
+  [ -f $src/patch.diff ] || { echo "$id: no source"; return; }
+  case $id in
+    C07-3) checks=C07,C09;; C07-r2-3) checks=C07,C08;; C06-r2-1|C06-r2-3) checks=C06,C13;;
+    C08-r3-2|C08-r3-3) checks=C08,C09;; C07-r3-2) checks=C07,C09;; C04-r3-3) checks=C04,C13;; C04-r3-1) checks=C04,C14;;
+    *) checks=$p;;
+  esac
   python3 tools/seedtest.py $src --checks $checks > /tmp/final_$id.log 2>&1
   python3 tools/keepseed.py $src $id "$(grep -i -m1 -A2 'manifest\|needs\|trigger' $src/README.md | tr '\n' ' ' | cut -c1-300)" 2>&1 | tail -n 1
-done
+}
+export -f one
+echo $ids | tr ' ' '\n' | xargs -P $P -I{} bash -c 'one {}'
